@@ -363,6 +363,8 @@ def _array_rewrite(ck, fx, key, items, keep):
             x = t[3][0][1]
             if x[0] == "ctor" and x[1] and x[1].endswith("Operator"):
                 return ("op", ops.get(x[2]))
+            if x[0] == "lit" and x[1] in set(ops.values()):
+                return ("op", x[1])          # the operator's spelling, already looked up (`op.as_str().to_owned()`)
             return x
         return t
 
